@@ -241,5 +241,70 @@ pub proof fn d6_loop_left_early()
         RenetClient::only_status_changed(*old(connection), *final(connection)),                                        // @C11 disconnect_all.only_status
 //@endfn
 
+// ---- the whole broadcast / disconnect_all functions around their loops (rule D18: the loop becomes a summary whose contract is the per-entry
+//      contract proved above for an arbitrary entry; ASSUMED: the induction over HashMap::iter_mut / values_mut -- every entry once, none added or removed) ----
+
+#[verifier::external_body]
+pub fn broadcast_summary(connections: &mut HashMap<u64, RenetClient>, channel_id: u8, message: Bytes)
+    ensures
+        final(connections)@.dom() == old(connections)@.dom(),
+        forall|id: u64| #[trigger] old(connections)@.contains_key(id) ==>
+            exists|b: Bytes| b@ == message@ && final(connections)@[id] == client_after_send(old(connections)@[id], channel_id, b),
+{ unimplemented!() }
+
+#[verifier::external_body]
+pub fn broadcast_except_summary(connections: &mut HashMap<u64, RenetClient>, except_id: u64, channel_id: u8, message: Bytes)
+    ensures
+        final(connections)@.dom() == old(connections)@.dom(),
+        forall|id: u64| #[trigger] old(connections)@.contains_key(id) ==> (if id == except_id { final(connections)@[id] == old(connections)@[id] } else {
+            exists|b: Bytes| b@ == message@ && final(connections)@[id] == client_after_send(old(connections)@[id], channel_id, b) }),
+{ unimplemented!() }
+
+#[verifier::external_body]
+pub fn disconnect_all_summary(connections: &mut HashMap<u64, RenetClient>)
+    ensures
+        final(connections)@.dom() == old(connections)@.dom(),
+        forall|id: u64| #[trigger] old(connections)@.contains_key(id) ==> final(connections)@[id].disconnected()
+            && RenetClient::only_status_changed(old(connections)@[id], final(connections)@[id])
+            && (old(connections)@[id].disconnected() ==> final(connections)@[id] == old(connections)@[id]),
+{ unimplemented!() }
+
+impl RenetServer {
+//@fn renet/src/server.rs RenetServer::broadcast_message
+//@summarize 1 => broadcast_summary(&mut self.connections, channel_id, message);
+//@spec
+        ensures
+            final(self).events@ == old(self).events@,                                                                 // @C12 broadcast.no_event
+            final(self).connections@.dom() == old(self).connections@.dom(),                                           // @C11 broadcast.no_client_appears_or_vanishes
+            // C11: every client of the table gets the message exactly once, on the named channel, with the given bytes
+            forall|id: u64| #[trigger] old(self).connections@.contains_key(id) ==>
+                exists|c: u8, m: Bytes, b: Bytes| call_ensures(<I as Into<u8>>::into, (channel_id,), c) && call_ensures(<B as Into<Bytes>>::into, (message,), m)
+                    && b@ == m@ && final(self).connections@[id] == client_after_send(old(self).connections@[id], c, b),   // @C11 broadcast.whole_table_gets_the_message_once
+//@endfn
+
+//@fn renet/src/server.rs RenetServer::broadcast_message_except
+//@summarize 1 => broadcast_except_summary(&mut self.connections, except_id, channel_id, message);
+//@spec
+        ensures
+            final(self).events@ == old(self).events@,                                                                 // @C12 broadcast_except.no_event
+            final(self).connections@.dom() == old(self).connections@.dom(),                                           // @C11 broadcast_except.no_client_appears_or_vanishes
+            old(self).connections@.contains_key(except_id) ==> final(self).connections@[except_id] == old(self).connections@[except_id],   // @C11 broadcast_except.excluded_client_gets_nothing
+            // C11: every other client of the table gets the message exactly once -- however many clients there are
+            forall|id: u64| #[trigger] old(self).connections@.contains_key(id) && id != except_id ==>
+                exists|c: u8, m: Bytes, b: Bytes| call_ensures(<I as Into<u8>>::into, (channel_id,), c) && call_ensures(<B as Into<Bytes>>::into, (message,), m)
+                    && b@ == m@ && final(self).connections@[id] == client_after_send(old(self).connections@[id], c, b),   // @C11 broadcast_except.whole_table_but_one_gets_the_message_once
+//@endfn
+
+//@fn renet/src/server.rs RenetServer::disconnect_all
+//@summarize 1 => disconnect_all_summary(&mut self.connections);
+//@spec
+        ensures
+            final(self).connections@.dom() == old(self).connections@.dom(),                                           // @C12 disconnect_all.no_client_appears_or_vanishes
+            forall|id: u64| #[trigger] old(self).connections@.contains_key(id) ==> final(self).connections@[id].disconnected()
+                && RenetClient::only_status_changed(old(self).connections@[id], final(self).connections@[id])
+                && (old(self).connections@[id].disconnected() ==> final(self).connections@[id] == old(self).connections@[id]),   // @C11,C12 disconnect_all.every_client_disconnected_first_reason_kept
+//@endfn
+}
+
 } // verus!
 fn main() {}
